@@ -6,7 +6,7 @@ package dict
 
 //@ # ---- well-formed parser: the indexes hold no nil entries (xml decoding creates the objects Load stores) ----
 //@ spec pwf(p *Parser) bool = (forall k codeIdx :: has(p.command, k) ==> p.command[k] != nil) &&
-//@      (forall k codeIdx :: has(p.avpcode, k) ==> p.avpcode[k] != nil) && (forall k nameIdx :: has(p.avpname, k) ==> p.avpname[k] != nil)
+//@      (forall k codeIdx :: has(p.avpcode, k) ==> p.avpcode[k] != nil && p.avpcode[k].Code == k.code) && (forall k nameIdx :: has(p.avpname, k) ==> p.avpname[k] != nil)
 //@ # parent application (scoped dictionaries); the literal of util.go, checked against dict.init by a table obligation
 //@ spec par(a uint32) uint32 = (a == 16777251 || a == 16777238) ? 4 : a == 4 ? 1 : 0
 //@ # does application a define the AVP named by code (a name, or a number given as uint32 / int) for this vendor key
@@ -40,6 +40,8 @@ package dict
 //@           (appid == 0 || par(appid) == 0 || !hit(p, par(par(appid)), code, vendorID)) && (appid == 0 || par(appid) == 0 || par(par(appid)) == 0 || !hit(p, 0, code, vendorID)) ==>
 //@           err != nil && avp == nil
 //@   ensures [C17] bad_code_type: !codeok(code) ==> avp == nil && err != nil
+//@   ensures [C17] numeric_code_matches: avp != nil && typeis(code, uint32) ==> avp.Code == code.(uint32)
+//@   ensures [C17] int_code_matches: avp != nil && typeis(code, int) ==> avp.Code == uint32(code.(int))
 //@   loop 0
 //@     invariant [C17] on_chain: appid == appid0 || (appid0 != 0 && !hit(p, appid0, code, vendorID) && (appid == par(appid0) ||
 //@               (par(appid0) != 0 && !hit(p, par(appid0), code, vendorID) && (appid == par(par(appid0)) ||
